@@ -29,6 +29,7 @@ import comp_common as cc
 import comp_matrix as mx
 import c11_fx
 import extract_fx
+import extract_c11_state
 
 NONSEP = {"HUE", "SATURATION", "COLOR", "LUMINOSITY", "DARKER_COLOR", "LIGHTER_COLOR"}
 FIXTURE_AREA = 1100 * 1100
@@ -403,11 +404,125 @@ def fixtures(ctx, st):
 
 
 # ------------------------------------------------------------------------------------------
+# the non-separable modes where ClipColor is active
+# ------------------------------------------------------------------------------------------
+def nonsep_stream(ctx, st):
+    """every ordered pair of comp_common.CLIP_PALETTE (saturated primaries / secondaries against dark and bright colours, so
+    that SetLum leaves the unit cube below 0 / above 1) under the six non-separable modes, through the real compositor in six
+    positions (plain, translucent, in an isolated / pass-through group, as a clip layer, as the group's own blend mode);
+    compared like every other case: float64 oracle of the published formulas (search) and exact rational model
+    (correspondence).  Counted: the compared pixels per (mode, where SetLum's colour lies before ClipColor)."""
+    docs = cc.nonsep_docs(ctx.rng, extra=4 if ctx.quick else 24)
+    cases = [{"doc": d, "stream": "nonsep", "variant": "plain"} for d in docs]
+    results = process(ctx, cases, st, "nonsep")
+    seen = {}
+    for c, r in zip(cases, results):
+        d = c["doc"]
+        mode = d["family"].split("/")[1]
+        px = [n for n in cc.walk(d["recipe"]) if n["t"] == "pixel"]
+        cb, cs = np.asarray(px[0]["color"]) / 255.0, np.asarray(px[-1]["color"]) / 255.0
+        cls = cc.clip_classes(mode, cb, cs)
+        if cls is None or r["spec"] is None:
+            continue
+        ok = ~np.asarray(r["spec"][1], dtype=bool)
+        for k in ("below", "above", "inside"):
+            n = int(((cls == k) & ok).sum())
+            seen[(mode, k)] = seen.get((mode, k), 0) + n
+            ctx.hist("clipcolor_pixels_compared", "%s:%s-the-unit-cube-before-ClipColor" % (mode, k), n)
+            ctx.hist("clipcolor_pixels_excluded_as_unstable", "%s:%s" % (mode, k), int(((cls == k) & ~ok).sum()))
+    for mode in cc.CLIP_MODES[:4]:
+        for k in ("below", "above"):
+            if not seen.get((mode, k)):
+                ctx.skipped.append("non-separable stream: no compared pixel of mode %s has SetLum's colour %s the unit cube" % (mode, k))
+    return cases
+
+
+# ------------------------------------------------------------------------------------------
+# repeated composites of ONE object
+# ------------------------------------------------------------------------------------------
+def repeat_json(case, res=None):
+    j = case_json(case)
+    j["repeat"] = True
+    if case.get("only"):
+        j["only"] = sorted(case["only"])
+    if res is not None:
+        j["script"] = res["script"]
+    return j
+
+
+def report_repeat(ctx, case, res):
+    feats0 = cc.feature_sig(case["doc"], variant_tags(case))
+    if res["error"]:
+        e = res["error"]
+        if not e["in_repo"]:
+            raise core.Infra("harness error in the repeated-composite script: %s" % e)
+        ctx.fail("C11/repeat/exception/%s/%s" % (e["type"], feats0),
+                 "a call of the repeated-composite script raises %s (%s) at %s after %s" % (e["type"], e["msg"], e["where"], e["after"]),
+                 repeat_json(case, res), e, "every call answers, and answers like the first call on a freshly opened document")
+        return
+    p0 = res["problems"][0]
+    kind = p0["what"].split("-differs")[0] if "-differs" in p0["what"] else "aliasing"
+    only = {"composite", kind}
+
+    def fails(d):
+        r = cc.eval_repeat(dict(case, doc=d, only=only))
+        return r["error"] is None and any(q["what"] == p0["what"] for q in r["problems"])
+    c2 = dict(case, only=only)
+    if fails(case["doc"]):
+        c2 = dict(c2, doc=cc.shrink_doc(case["doc"], fails, budget=40 if ctx.quick else 120))
+    else:
+        c2 = dict(case)
+    for k in ("backdrop", "filter"):
+        if c2.get(k) is not None:
+            c3 = {kk: v for kk, v in c2.items() if kk != k}
+            r3 = cc.eval_repeat(c3)
+            if r3["error"] is None and any(q["what"] == p0["what"] for q in r3["problems"]):
+                c2 = c3
+    r = cc.eval_repeat(c2)
+    pp = next((q for q in r["problems"] if q["what"] == p0["what"]), None) if r["error"] is None else None
+    if pp is None:
+        c2, r, pp = case, res, p0
+    feats = cc.feature_sig(c2["doc"], variant_tags(c2))
+    ctx.fail("C11/repeat/%s/%s" % (pp["what"], feats),
+             "on ONE PSDImage object the call %s (step %d of the script) does not give what the first such call on a freshly "
+             "opened copy of the same document gives: %s (features of the shrunk document: %s)"
+             % (pp["call"], pp["step"], pp["what"], feats),
+             repeat_json(c2, r), pp, "bit-identical arrays: compositing reads the document, it does not change it, and what it "
+                                     "returns belongs to the caller")
+
+
+def repeat_stream(ctx, pools):
+    """comp_common.eval_repeat on the documents made for it, on the deterministic matrix, the non-separable and the seeded
+    documents (with their backdrop / layer_filter variants)"""
+    cases = [{"doc": d, "stream": "repeat", "variant": "plain"} for d in cc.repeat_docs()]
+    for label, cs, every in pools:
+        cases += [dict(c, stream=label) for c in cs[::every]]
+    results = cc.run_repeat(cases)
+    shown = {}
+    ncalls = 0
+    for c, r in zip(cases, results):
+        ncalls += r["calls"]
+        ctx.hist("repeat_documents", c["stream"] + ":" + c.get("variant", "plain"))
+        if r["error"] is None and not r["problems"]:
+            ctx.hist("repeat_outcome", "every call equals the first call on a fresh document")
+            continue
+        fam = r["error"]["type"] if r["error"] else r["problems"][0]["what"]
+        ctx.hist("repeat_outcome", fam)
+        if shown.get(fam, 0) >= (2 if ctx.quick else 4):
+            continue
+        shown[fam] = shown.get(fam, 0) + 1
+        report_repeat(ctx, c, r)
+    ctx.extra["repeat_script"] = {"documents": len(cases), "calls_compared_with_a_fresh_document": ncalls}
+
+
+# ------------------------------------------------------------------------------------------
 # the check
 # ------------------------------------------------------------------------------------------
 def run(ctx: core.Run):
     ctx.regenerate(extract_fx.gen_composite_fx)
-    ctx.prove(["PsdVerif.Props.C11", "PsdVerif.Props.C11Fx"])
+    # what in the read path of the compositor outlives a call, and what `paste` hands back (Generated/CompState.lean)
+    ctx.regenerate(extract_c11_state.gen_comp_state)
+    ctx.prove(["PsdVerif.Props.C11", "PsdVerif.Props.C11Fx", "PsdVerif.Props.C11State"])
     st = {"unstable_px": 0, "px": 0, "spec_da": 0.0, "spec_dc": 0.0, "corr_da": 0.0, "corr_dc": 0.0}
     corpus = json.loads((core.VERIF / "harness" / "corpus" / "C11.json").read_text())
     process(ctx, [case_from_json(j) for j in corpus], st, "corpus")
@@ -420,6 +535,9 @@ def run(ctx: core.Run):
         process(ctx, cases[k:k + 600], st, "generated")
     ctx.sample({"doc": {"size": cases[0]["doc"]["size"], "mode": cases[0]["doc"]["mode"],
                         "features": cc.feature_sig(cases[0]["doc"]), "layers": cc.count_layers(cases[0]["doc"]["recipe"])}})
+    ncases = nonsep_stream(ctx, st)
+    plain_m = [c for c in mcases if c.get("variant") == "plain"]
+    repeat_stream(ctx, [("matrix", plain_m, 1 if not ctx.quick else 2), ("nonsep", ncases, 6), ("generated", cases, 1)])
     fixtures(ctx, st)
     model_self_check(ctx, cases[:6])
     knockout_witness(ctx)
@@ -455,7 +573,15 @@ def run(ctx: core.Run):
         "modes in the 'jumpy' stream, clipping runs incl. orphans and clipping groups, raster masks (background 0/255, density, "
         "disabled), knockout, group mode pass-through / normal / other), plain or with a random backdrop colour/alpha array or with a "
         "layer_filter; evaluations = pixels composited; correspondence_cases = pixels sent to the Lean model (every pixel of every "
-        "generated case; a seeded sample of <= 160 pixels per fixture); distinct = distinct (document, variant) pairs with a non-empty viewport")
+        "generated case; a seeded sample of <= 160 pixels per fixture); distinct = distinct (document, variant) pairs with a non-empty viewport. "
+        "Stream 'nonsep' (comp_common.nonsep_docs): every ordered pair of an 8-colour palette (saturated primaries / secondaries, a dark and a "
+        "bright tinted colour, mid colours) under the six non-separable modes in six positions (plain, translucent, inside an isolated / "
+        "pass-through group, as clip layer, as a group's blend mode) + seeded palettes; histograms.clipcolor_pixels_compared counts the compared "
+        "pixels whose SetLum colour lies below / above / inside the unit cube before ClipColor. Repeated-composite script (comp_common.eval_repeat; "
+        "documents made for it, the matrix, the non-separable and the seeded documents with their backdrop / layer_filter variants): on ONE object "
+        "composite(psd) x3, composite(layer) x2 for every layer / group (+ as_layer), composite(psd, viewport) x2 for the canvas, every layer's box, "
+        "a crop and a shifted window, numpy() arrays and composite results overwritten by the caller, composite(psd) again - every answer "
+        "bit-identical to the first answer of a freshly built twin (extra.repeat_script)")
     ctx.trusted_base += [
         "Lean 4.33 kernel; axioms allowed: propext, Classical.choice, Quot.sound (audited per theorem)",
         "Model/Composite.lean: hand transliteration of composite/__init__.py (Compositor, composite, paste, _intersect) as a per-pixel "
@@ -469,6 +595,8 @@ def run(ctx: core.Run):
         "Model/Blend.lean (C12) instantiates the blend table",
         "harness/comp_common.py: extraction of the per-pixel tree through the public getters; the float64 oracle of the published model",
         "harness/pixdoc.py builds documents from low-level records; they are serialised and re-read by the library before use",
+        "harness/extract_c11_state.py: syntactic reader of stores that outlive a call in composite/*.py and api/numpy_io.py and of the "
+        "returns of paste (Generated/CompState.lean); the model is stateless by construction, this ties that to the source",
     ]
     ctx.assumptions += [
         "float32 arithmetic of NumPy stays within 2e-4 (shape, alpha) / 1e-3 (premultiplied colour) of exact arithmetic on these documents "
@@ -495,7 +623,7 @@ def run(ctx: core.Run):
     }
     ctx.notes += NOTES + c11_fx.NOTES
     if ctx.tier == "thorough":
-        ctx.recheck(["PsdVerif.Props.C11", "PsdVerif.Props.C11Fx"])
+        ctx.recheck(["PsdVerif.Props.C11", "PsdVerif.Props.C11Fx", "PsdVerif.Props.C11State"])
 
 
 KNOCKOUT_SIG = "C11/knockout/group-alpha/white-over-white"
@@ -588,6 +716,10 @@ NOTES = [
     "(1-a_0)(f_s-a_s)a_0 per knockout step); replayed on the real compositor by this run (knockout_witness in the evidence): finding "
     + KNOCKOUT_SIG + ". The float64 oracle of comp_common.py still carries the coded rule, on purpose: the random search then looks for "
     "OTHER deviations, this one is pinned by the witness",
+    "search, beyond single composites: (a) the non-separable modes on colour pairs where ClipColor actually clips (nonsep_stream; the seeded "
+    "'jumpy' stream rarely produced such pairs with a stable neighbourhood); (b) compositing is a pure function of the document: repeated "
+    "composites of one object, of its layers and under other viewports equal those of a freshly opened twin bit for bit, and arrays handed "
+    "to the caller are not aliased with anything a later call reads (repeat_stream; signatures C11/repeat/...)",
     "correspondence-only: float32 vs exact arithmetic, np.sqrt, everything the extraction reads through public getters "
     "(layer.numpy, bbox, mask, tagged blocks, clip_layers, _has_clip_target)",
 ]
@@ -604,6 +736,17 @@ def replay(ctx, data):
         else:
             print("real alpha:\n", np.round(np.asarray(r["real"][2])[..., 0], 4))
             print("first difference from the float64 oracle:", r["spec"][0] if r["spec"] else "(no oracle for this document)")
+        print("expected:", data.get("expected"))
+        return 0
+    if inp.get("repeat"):
+        case = case_from_json(inp)
+        if inp.get("only"):
+            case["only"] = set(inp["only"])
+        r = cc.eval_repeat(case)
+        print("script:", r["script"])
+        print("error:", r["error"])
+        for q in r["problems"]:
+            print("problem:", q)
         print("expected:", data.get("expected"))
         return 0
     if "fixture" in inp:
